@@ -31,15 +31,30 @@ def ascii_lower(s):
     return ''.join(chr(ord(c) + 32) if 'A' <= c <= 'Z' else c for c in s)
 
 
+_PREP = []
+
+
 def in_model_domain(toks):
-    """str.lower() is modelled on ASCII only; COMMENT tokens must be comments (CSSComment parses them)"""
+    """str.lower() is modelled on ASCII only: the values the code normalises (pseudo names and `:not(`, i.e. the
+    pseudo-class / pseudo-element / negation tokens after _prepare_tokens) must not hold other cased letters;
+    COMMENT tokens must be comments (CSSComment parses them)"""
     for t in toks:
-        if t[0] in ('IDENT', 'FUNCTION', 'pseudo-class', 'pseudo-element', 'negation') and t[1].lower() != ascii_lower(t[1]):
+        if not isinstance(t[1], str):
             return False
         if t[0] == 'COMMENT' and not (len(t[1]) >= 4 and t[1].startswith('/*') and t[1].endswith('*/')
                                       and '*/' not in t[1][2:-2]):
             return False
-        if not isinstance(t[1], str):
+    if all(t[1].isascii() for t in toks):
+        return True
+    if not _PREP:
+        import cssutils.css
+        _PREP.append(cssutils.css.Selector())
+    try:
+        prepared = list(_PREP[0]._prepare_tokens(iter(list(toks))))
+    except Exception:               # noqa: BLE001
+        return True
+    for t in prepared:
+        if t[0] in ('pseudo-class', 'pseudo-element', 'negation') and t[1].lower() != ascii_lower(t[1]):
             return False
     return True
 
@@ -212,7 +227,7 @@ class C16(Check):
                 want = enc_toks(im.prepare(cases[i]['toks']))
             except Exception as e:                      # noqa: BLE001
                 want = 'RAISE ' + type(e).__name__
-            if m != want:
+            if m != want and not cases[i]['kind'].startswith('synthetic'):
                 ctx.disagree('Selector._prepare_tokens', self.witness(cases[i]), want, m)
         for i, c in enumerate(cases):
             got, s = im.sel(c['toks'], c['ns'])
@@ -222,7 +237,14 @@ class C16(Check):
                      nontrivial=nontrivial, kind=c['kind'] + (':ok' if got.startswith('OK') else ':' + got.split()[0].lower()),
                      sample={'text': c.get('text'), 'tokens': [[t[0], t[1]] for t in c['toks']][:12], 'impl': got[:160]})
             if i in model:
-                if model[i] != got:
+                if model[i] != got and c['kind'].startswith('synthetic'):
+                    # hand-made tokens no tokenizer produces (empty CHAR, pre-grouped types …): they document how
+                    # the model treats Python's partial operations; a difference here is recorded, not a broken tie
+                    ctx.count('synthetic-difference')
+                    ctx.notes.setdefault('synthetic_differences', [])
+                    if len(ctx.notes['synthetic_differences']) < 5:
+                        ctx.notes['synthetic_differences'].append({'input': self.witness(c), 'impl': got, 'model': model[i]})
+                elif model[i] != got:
                     ctx.disagree('Selector on a token list', self.witness(c), got, model[i])
             else:
                 ctx.count('impl-only:outside-model-domain')
@@ -280,7 +302,12 @@ class C16(Check):
             text = s.selectorText
             nsd = dict(s._namespaces.namespaces)
             got2, s2 = im.sel(im.tokenize(text), nsd)
-            kf = KF_ESCAPE if pseudo_name_lost_escape(s.seq) else None
+            kf = KF_ESCAPE if pseudo_name_lost_escape(im, c['toks']) else None
+            if kf is None and not names_serialisable(s.seq):
+                # a name holding a character that only a hex escape can produce (`\\2a` is the IDENT `*`): the
+                # tokenizer resolves hex escapes and the serializer does not write them back — property C03, not C16
+                ctx.count('outside-C16:name-needs-hex-escape')
+                return
             if not got2.startswith('OK'):
                 ctx.violate('the serialised selector reparses', dict(w, serialised=text), got2, known=kf)
             else:
@@ -672,17 +699,46 @@ class C16(Check):
 
 
 KF_ESCAPE = 'C16-pseudo-name-escape-dropped'
-_PLAIN_NAME = __import__('re').compile(r'^:{1,2}-?[A-Za-z_\u0080-\U0010ffff][A-Za-z0-9_\-\u0080-\U0010ffff]*\(?$')
+_re = __import__('re')
+_PLAIN_NAME = _re.compile(r'^:{1,2}-?[A-Za-z_\u0080-\U0010ffff][A-Za-z0-9_\-\u0080-\U0010ffff]*\(?$')
+_NAME = _re.compile(r'^(?:[A-Za-z0-9_\-\u0080-\U0010ffff]|\\[^\n\r\f0-9a-fA-F])+$')
 
 
-def pseudo_name_lost_escape(seq):
-    """region of the known finding: a (functional) pseudo-class / pseudo-element or :not( whose normalised name is
-    no longer one identifier, because normalize() removed the backslash of an escaped non-name character"""
-    for it in seq:
-        if it.type in ('pseudo-class', 'pseudo-element', 'negation-start') and isinstance(it.value, str):
-            if not _PLAIN_NAME.match(it.value):
+def pseudo_name_lost_escape(im, toks):
+    """region of the known finding: a (functional) pseudo-class / pseudo-element or :not( written with a backslash
+    escape of a character that is not a name character: normalize() deletes the backslash, and the stored and
+    serialised name is no longer one identifier"""
+    try:
+        prepared = im.prepare(toks)
+    except Exception:               # noqa: BLE001
+        return False
+    for t in prepared:
+        if t[0] in ('pseudo-class', 'pseudo-element', 'negation') and '\\' in t[1]:
+            if not _PLAIN_NAME.match(im.css.Selector._normalize(t[1])):
                 return True
     return False
+
+
+def names_serialisable(seq):
+    """every name in the parsed selector can be written back as it is stored (name characters and simple escapes)"""
+    for it in seq:
+        v, t = it.value, it.type
+        if isinstance(v, tuple):
+            if v[1] != '*' and not _NAME.match(v[1]):
+                return False
+        elif t == 'id':
+            if not (v.startswith('#') and _NAME.match(v[1:])):
+                return False
+        elif t == 'class':
+            if not (v.startswith('.') and _NAME.match(v[1:])):
+                return False
+        elif t in ('attribute-selector', 'attribute-value', 'IDENT'):
+            if not _NAME.match(v):
+                return False
+        elif t in ('pseudo-class', 'pseudo-element', 'negation-start'):
+            if not _PLAIN_NAME.match(v):
+                return False
+    return True
 
 
 def single_negation_args(seq, comment_cls):
